@@ -2,6 +2,7 @@ package packet
 
 import (
 	"bytes"
+	"io"
 
 	vp "github.com/Tnze/go-mc/internal/zzvp"
 	"github.com/Tnze/go-mc/nbt"
@@ -551,5 +552,111 @@ func VP_C06_nbtfield_history() {
 	vpCheckWrite(NBT(struct {
 		A int32 `nbt:"a"`
 	}{x}), ref)
+	vp.Cover("end")
+}
+
+// vpBlob is a user-defined element: a ByteArray and a VarInt (as the protocol's
+// property / signature records are).
+type vpBlob struct {
+	Data ByteArray
+	N    VarInt
+}
+
+func (b vpBlob) WriteTo(w io.Writer) (int64, error) { return Tuple{b.Data, b.N}.WriteTo(w) }
+func (b *vpBlob) ReadFrom(r io.Reader) (int64, error) {
+	return Tuple{&b.Data, &b.N}.ReadFrom(r)
+}
+
+// arrays whose elements own memory: Ary of ByteArray, String, BitSet and of a
+// user-defined record, three elements of lengths falling, rising or equal, every
+// byte arbitrary, into a fresh destination and into one whose elements were used
+// before (longer, with capacity): each element keeps its own value.
+func VP_C06_ary_elements() {
+	lens := [][]int{{4, 2, 1}, {0, 1, 3}, {2, 2, 2}}[vp.Choice(3)]
+	var vals [][]byte
+	for _, l := range lens {
+		vals = append(vals, vp.Bytes(l))
+	}
+	used := vp.Bool()
+	ref := []byte{3}
+	switch vp.Choice(4) {
+	case 0:
+		src := make([]ByteArray, 3)
+		for i, v := range vals {
+			src[i] = ByteArray(v)
+			ref = append(append(ref, byte(len(v))), v...)
+		}
+		var dst []ByteArray
+		if used {
+			dst = []ByteArray{{9, 9, 9, 9, 9, 9}, {8, 8, 8, 8, 8, 8}, {7, 7, 7, 7, 7, 7}, {6}}
+		}
+		vpCheckWrite(Ary[VarInt]{Ary: src}, ref)
+		vpCheckRead(Ary[VarInt]{Ary: &dst}, ref)
+		vp.Assert(len(dst) == 3, "Ary round trip length (whatever the destination held before)")
+		for i := range vals {
+			vpEqBytes(dst[i], vals[i], "Ary element keeps its own value")
+		}
+	case 1:
+		src := make([]String, 3)
+		for i, v := range vals {
+			for _, c := range v {
+				vp.Assume(c < 0x80)
+			}
+			src[i] = String(v)
+			ref = append(append(ref, byte(len(v))), v...)
+		}
+		var dst []String
+		if used {
+			dst = []String{"stale-0", "stale-1", "stale-2", "x"}
+		}
+		vpCheckWrite(Ary[VarInt]{Ary: src}, ref)
+		vpCheckRead(Ary[VarInt]{Ary: &dst}, ref)
+		vp.Assert(len(dst) == 3, "Ary round trip length (whatever the destination held before)")
+		for i := range vals {
+			vpEqBytes([]byte(dst[i]), vals[i], "Ary element keeps its own value")
+		}
+	case 2:
+		src := make([]BitSet, 3)
+		want := make([][]int64, 3)
+		for i, l := range lens {
+			ref = append(ref, byte(l))
+			for k := 0; k < l; k++ {
+				x := vp.Int64()
+				want[i] = append(want[i], x)
+				ref = append(ref, vpBE(uint64(x), 8)...)
+			}
+			src[i] = BitSet(want[i])
+		}
+		var dst []BitSet
+		if used {
+			dst = []BitSet{{1, 2, 3, 4, 5}, {6, 7, 8, 9, 10}, {11, 12, 13, 14, 15}}
+		}
+		vpCheckWrite(Ary[VarInt]{Ary: src}, ref)
+		vpCheckRead(Ary[VarInt]{Ary: &dst}, ref)
+		vp.Assert(len(dst) == 3, "Ary round trip length (whatever the destination held before)")
+		for i := range want {
+			vp.Assert(len(dst[i]) == len(want[i]), "Ary element keeps its own value")
+			for k := range want[i] {
+				vp.Assert(dst[i][k] == want[i][k], "Ary element keeps its own value")
+			}
+		}
+	default:
+		src := make([]vpBlob, 3)
+		for i, v := range vals {
+			src[i] = vpBlob{Data: v, N: VarInt(i + 1)}
+			ref = append(append(append(ref, byte(len(v))), v...), byte(i+1))
+		}
+		var dst []vpBlob
+		if used {
+			dst = []vpBlob{{Data: ByteArray{9, 9, 9, 9, 9, 9}, N: 77}, {Data: ByteArray{8, 8, 8, 8, 8}, N: 78}, {Data: ByteArray{7, 7, 7, 7, 7}, N: 79}}
+		}
+		vpCheckWrite(Ary[VarInt]{Ary: src}, ref)
+		vpCheckRead(Ary[VarInt]{Ary: &dst}, ref)
+		vp.Assert(len(dst) == 3, "Ary round trip length (whatever the destination held before)")
+		for i := range vals {
+			vpEqBytes(dst[i].Data, vals[i], "Ary element keeps its own value")
+			vp.Assert(dst[i].N == VarInt(i+1), "Ary element keeps its own value")
+		}
+	}
 	vp.Cover("end")
 }
